@@ -1,5 +1,6 @@
 import TFV.Properties.Adapt
 import TFV.Properties.Src.ShadeParams
+import TFV.Properties.Src.Greedy
 #print axioms TFV.Adapt.C15_randc01_range
 #print axioms TFV.Adapt.C15_randc01_progress
 #print axioms TFV.Adapt.C15_randn01_range
@@ -17,3 +18,4 @@ import TFV.Properties.Src.ShadeParams
 #print axioms TFV.Adapt.C15_archive
 #print axioms TFV.SrcTie.C15_src_shade_generate_F_CR
 #print axioms TFV.SrcTie.C15_src_shade_update_u_F
+#print axioms TFV.SrcTie.C15_src_jde_greedy
